@@ -116,6 +116,18 @@ impl crate::refdec::Img for Store {
     fn read_at(&self, off: u64, buf: &mut [u8]) {
         Store::read_at(self, off, buf)
     }
+    fn zero_sparse_pages(&self, off: u64, len: u64) -> Option<(u64, Vec<u64>)> {
+        match self {
+            Store::Sparse { pages, fill: 0, .. } => {
+                let lo = off / PAGE as u64;
+                let hi = (off + len + PAGE as u64 - 1) / PAGE as u64;
+                let mut v: Vec<u64> = pages.keys().filter(|p| **p >= lo && **p < hi).map(|p| *p * PAGE as u64).collect();
+                v.sort();
+                Some((PAGE as u64, v))
+            }
+            _ => None,
+        }
+    }
 }
 
 #[derive(Clone, Copy, Debug, PartialEq, Eq)]
